@@ -34,7 +34,7 @@ def rule_line_index(ctx, rep):
     n = 0
     for mod in (REGEX_MOD, XML_MOD):
         m = ctx.prog.module(mod)
-        for fn in [f for f in ctx.prog.functions.values() if f.module is m]:
+        for fn in [f for f in ctx.prog.live_functions() if f.module is m]:
             r = ctx.resolver(fn)
             for c in walk_no_nested(fn.node):
                 if isinstance(c, ast.Call) and r.callee_qname(c) == "codemodder.codetf.Change":
@@ -217,7 +217,7 @@ def rule_optional_format(ctx, rep):
     )
     m = ctx.prog.module(XML_MOD)
     n_checked = 0
-    for fn in [f for f in ctx.prog.functions.values() if f.module is m and f.cls is not None]:
+    for fn in [f for f in ctx.prog.live_functions() if f.module is m and f.cls is not None]:
         opt = _optional_params(fn)
         if not opt:
             continue
@@ -277,7 +277,7 @@ def rule_raw_write_flush(ctx, rep):
             ok = isinstance(d, ast.Constant) and d.value is False
             rep.check("R-RAW-WRITE-FLUSH", init.qname, init.loc(), ok, "default",
                       f"short_empty_elements defaults to `{unparse(d) if d is not None else '?'}` while {', '.join(m.name for m in raw[:4])} write markup without flushing the pending start tag")
-    for fn in ctx.prog.functions.values():
+    for fn in ctx.prog.live_functions():
         if not fn.module.name.startswith(("codemodder.", "core_codemods.")):
             continue
         for call in walk_no_nested(fn.node):
